@@ -52,7 +52,9 @@ static struct kdev_s vf_kdev_fs, vf_kdev_j;
  * Like the real getblk() a buffer is allocated TRUNCATED to the block size (sizeof(*bh) + blocksize - sizeof(bh->b_data)).
  * recovery.c only touches b_data and b_size; the dirty/uptodate/device state of a slot is private to this buffer layer
  * and kept in plain scalars so that it constant-propagates. */
-#define VF_BHSZ ((offsetof(struct buffer_head, b_data) + B + 7) & ~7u)
+/* BOUND: with blocks smaller than a commit header (60 bytes) the buffer is still 64 bytes long: do_one_pass() reads the commit time at b_data+48 of every commit block; with B < 64 that field is padding (zero), which recovery without checksum features never uses */
+#define VF_BDATA (B < 64 ? 64 : B)
+#define VF_BHSZ ((offsetof(struct buffer_head, b_data) + VF_BDATA + 7) & ~7u)
 static unsigned char vf_bhmem0[VF_BHSZ] __attribute__((aligned(8)));
 static unsigned char vf_bhmem1[VF_BHSZ] __attribute__((aligned(8)));
 static unsigned char vf_bhmem2[VF_BHSZ] __attribute__((aligned(8)));
